@@ -51,8 +51,13 @@ def eval_field(ann, name, text, cls):
         e["why"] = "validation errors"
         return e
     e["status"] = "accepted"
+    try:
+        s1 = e["rendered"] = str(c1)
+    except Exception as x:  # noqa
+        fails.append(dict(where, text_length=len(text),
+                          what="an accepted field has no rendering: str() of the column raised %s" % type(x).__name__, kind="render-raises"))
+        return e
     e["value"] = impl.enc_val(c1.value)
-    s1 = e["rendered"] = str(c1)
     if any(ch in s1 for ch in SEPS):
         fails.append(dict(where, what="rendered field contains a tab or line break", kind="separator", rendered=s1))
         return e
@@ -149,6 +154,52 @@ def eval_line(ann, line):
     sch = impl.scheme_by_annotation(ann)
     r1 = MafRecord.from_line(line, scheme=sch, validation_stringency=ValidationStringency.Silent)
     return eval_parsed(ann, r1, line.split("\t"), {"scheme": ann, "line": line})
+
+
+def eval_kept(ann, line):
+    """A record is parsed and kept; then the caller edits, in place, the lists that OTHER parsed records hand out
+    (colcases.edit_parsed_lists).  The kept record still renders as it did, and its rendering still denotes the values
+    it was parsed with (copied at parse time)."""
+    import random
+    from maflib.record import MafRecord
+    from maflib.validation import ValidationStringency
+    sch = impl.scheme_by_annotation(ann)
+    where = {"scheme": ann, "line": line, "history": "parsed-lists-edited"}
+    r1 = MafRecord.from_line(line, scheme=sch, validation_stringency=ValidationStringency.Silent)
+    if r1.validation_errors:
+        return {"status": "not-accepted", "failures": []}
+    v0 = [impl.enc_val(v) for v in r1.column_values()]
+    s0 = str(r1)
+    fails = []
+    undo = colcases.edit_parsed_lists(ann, random.Random(11))
+    try:
+        s1 = str(r1)
+        if s1 != s0:
+            fails.append(dict(where, what="a kept record renders differently after lists handed out by other parsed records were edited in place", kind="not-fixpoint", rendered=s0, rerendered=s1))
+        else:
+            r2 = MafRecord.from_line(s1, scheme=sch, validation_stringency=ValidationStringency.Silent)
+            v2 = [impl.enc_val(v) for v in r2.column_values()]
+            for k, (a, b) in enumerate(zip(v0, v2)):
+                if not py_eq(a, b) and not (a.get("t") == "float" and a["v"] == "nan"):
+                    fails.append(dict(where, what="value changes across render + parse (the record was parsed, kept, and rendered after lists handed out by other parsed records were edited in place)",
+                                      kind="value-changed", column=sch.column_names()[k], text=line.split("\t")[k], value=a, reparsed=b))
+                    break
+    finally:
+        undo()
+    return {"status": "accepted", "failures": fails, "rendered": s0}
+
+
+def kept_record_cases(ctx, out):
+    rng = ctx.rng("c04-kept")
+    for ann in rng.sample(impl.builtin_annotations(), ctx.scale(4, 14)):
+        for prefer in (0.0, 0.6):
+            line = "\t".join(colcases.valid_fields(ann, rng, prefer_nonnull=prefer))
+            out.evaluations += 1
+            e = eval_kept(ann, line)
+            out.failures += e["failures"]
+            out.distribution["kept record rendered after other records' lists were edited in place"] += 1
+            if e["status"] == "accepted":
+                out.nontrivial.add((ann, "kept", line))
 
 
 def eval_parsed(ann, r1, fields, where):
@@ -400,6 +451,7 @@ def run(ctx):
     file_cases(ctx, out, ctx.scale(1, 4), 2)
     custom_mixins(ctx, out)
     float_laws(ctx, out)
+    kept_record_cases(ctx, out)
     return out
 
 
@@ -454,6 +506,15 @@ def replay_case(ctx, failure):
                                        "rendered %s; re-rendered %s" % (_short(repr(r["rendered"]), 200),
                                                                         "identical" if r.get("rerendered") == r["rendered"] else _short(repr(r.get("rerendered", "-")), 200))))
         print("  oracle: %d failure(s)%s" % (len(e["failures"]), "".join("\n    - " + x["what"] for x in e["failures"])))
+        return e["failures"]
+    if "line" in f and "scheme" in f and f.get("history") == "parsed-lists-edited":
+        if impl.scheme_by_annotation(f["scheme"]) is None:
+            return None
+        e = eval_kept(f["scheme"], f["line"])
+        print("replay C04: r = MafRecord.from_line(<line>, scheme=%s, Silent) is kept; other lines of the layout are parsed and the lists those records hand out are edited in place "
+              "(value.append(...)); then str(r) is parsed again and compared with the values r was parsed with" % f["scheme"])
+        print("  line: %s" % _short(f["line"]))
+        print("  oracle: %d failure(s)%s" % (len(e["failures"]), "".join("\n    - %s" % x["what"] for x in e["failures"])))
         return e["failures"]
     if "line" in f and "scheme" in f:
         if impl.scheme_by_annotation(f["scheme"]) is None:
